@@ -398,7 +398,14 @@ def field_roles(prog, cls):
             r = value_role(prog, ev.value, param_ann) or _annotation_role(prog, ann.get(ev.field))
             if r and roles.get(ev.field, r) == r:
                 roles[ev.field] = r
-    # ctor parameters used as model callbacks in wrappers / imputers
+    # components of the state that are not written by a store of their own (entries of a dict of named slots)
+    for f, v in s.fields.items():
+        if f not in roles and "." in f:
+            r = value_role(prog, v, param_ann)
+            if r:
+                roles[f] = r
+    for f in [f for f in roles if any(g.startswith(f + ".") for g in s.fields)]:
+        del roles[f]                    # the owner of components is not itself a value with a role
     return roles
 
 
